@@ -45,6 +45,7 @@ type pureFunc struct {
 type Prog struct {
 	repo      string
 	pkgs      []*packages.Package
+	curTop    *ssa.Function // outermost function enclosing the contract being elaborated (for function-local type names)
 	ssaProg   *ssa.Program
 	ssaPkgs   map[string]*ssa.Package
 	typPkgs   map[string]*types.Package
